@@ -522,6 +522,10 @@ impl<'ast, 'psess, 'c> ModResolver<'ast, 'psess> {
         // Filter nested path, like `#[cfg_attr(feature = "foo", path = "bar.rs")]`.
         let mut path_visitor = visitor::PathVisitor::default();
         for attr in attrs.iter() {
+            // `path = ".."` names a file only there: in `cfg(..)`, `doc(..)` it is something else.
+            if !attr.has_name(sym::cfg_attr) {
+                continue;
+            }
             if let Some(meta) = attr.meta() {
                 path_visitor.visit_meta_item(&meta)
             }
